@@ -29,6 +29,15 @@ def generate(rng, tier):
                 cases.append({"k": "cond", "n": n, "i": i, "j": j})
         pairs = [(i, j) for i in range(n) for j in range(n) if i != j]
         cases.append({"k": "condarr", "n": n, "ijs": pairs})
+        if n >= 2:
+            # index sequences as lists / tuples / arrays, with and without a diagonal pair hidden among valid ones
+            for cont in ("list", "tuple", "array", "mixed"):
+                sub = rng.sample(pairs, min(len(pairs), rng.randrange(1, 6)))
+                cases.append({"k": "condseq", "n": n, "ijs": sub, "cont": cont})
+                d_ = rng.randrange(n)
+                withdiag = list(sub)
+                withdiag.insert(rng.randrange(len(withdiag) + 1), (d_, d_))
+                cases.append({"k": "condseq", "n": n, "ijs": withdiag, "cont": cont})
         cases.append({"k": "sq", "n": n, "ks": list(range(n * (n - 1) // 2))})
     big = [10 ** e + d for e in (3, 4, 5, 6, 7) for d in (-1, 0, 1, 7)] + [rng.randrange(50, 10 ** 7) for _ in range(40 if tier == "thorough" else 10)]
     for n in big:
@@ -110,6 +119,19 @@ def run(case):
             return {"obs": []}
         i, j = np.array([p[0] for p in case["ijs"]]), np.array([p[1] for p in case["ijs"]])
         return {"obs": [int(x) for x in d.to_condensed(case["n"], i, j)]}
+    if k == "condseq":
+        ii, jj = [p[0] for p in case["ijs"]], [p[1] for p in case["ijs"]]
+        cont = case["cont"]
+        if cont == "tuple":
+            ii, jj = tuple(ii), tuple(jj)
+        elif cont == "array":
+            ii, jj = np.array(ii), np.array(jj)
+        elif cont == "mixed":
+            ii, jj = tuple(ii), list(jj)
+        try:
+            return {"obs": [int(x) for x in np.atleast_1d(d.to_condensed(case["n"], ii, jj))]}
+        except ValueError:
+            return {"obs": None}
     if k == "sq":
         i, j = d.to_squared(case["n"], np.array(case["ks"]))
         sc = [d.to_squared(case["n"], kk) for kk in case["ks"][:40]]
@@ -198,6 +220,8 @@ def encode(case, o):
         return f"KCond {e.z(case['n'])} {e.z(case['i'])} {e.z(case['j'])} {e.opt(o['obs'], e.z)} {e.opt(o['sym'], e.z)}"
     if k == "condarr":
         return f"KCondArr {e.z(case['n'])} {zz(case['ijs'])} {e.zs(o['obs'])}"
+    if k == "condseq":
+        return f"KCondSeq {e.z(case['n'])} {zz(case['ijs'])} {e.opt(o['obs'], e.zs)}"
     if k == "sq":
         ks = case["ks"]
         # scalar form only observed on the first 40 ks; pad with the array results beyond
@@ -215,7 +239,7 @@ def encode(case, o):
 
 def nontrivial(case, o):
     k = case["k"]
-    if k in ("cond", "condarr", "sq"):
+    if k in ("cond", "condarr", "sq", "condseq"):
         return case["n"] >= 4
     if k in ("pdist", "cdist"):
         return len(case["xs"]) >= 3
